@@ -284,6 +284,33 @@ impl Model {
                         }
                     }
                 }
+                Op::Scale { g, idx, mul, k } => {
+                    let old = self.reg(RegKind::Count, *idx).0;
+                    let new = if *mul {
+                        old.checked_mul(*k)
+                    } else if *k == 0 {
+                        None
+                    } else {
+                        old.checked_div(*k)
+                    };
+                    if let Some(new) = new {
+                        if new != i32::MIN && old != i32::MIN {
+                            text.push_str(&format!(
+                                "{}\\{}\\count{} by {} ",
+                                Self::pre(*g),
+                                if *mul { "multiply" } else { "divide" },
+                                idx,
+                                k
+                            ));
+                            let glob = self.global(*g, false);
+                            self.note_assign(glob, &mut reach);
+                            let key = (RegKind::Count, *idx);
+                            self.write(glob, |l| {
+                                l.regs.insert(key, (new, 0));
+                            });
+                        }
+                    }
+                }
                 Op::AdvanceViaAlias { g, t, d } => {
                     if let Meaning::RegAlias(RegKind::Count, idx) = self.meaning(*t) {
                         let old = self.reg(RegKind::Count, idx).0;
